@@ -213,17 +213,19 @@ pub fn generate(plan: &Plan, core: &Rc<SimCore>, seed: u64) -> Result<(Vec<Item>
                                         };
                                         let err = StepError::Panic(payload);
                                         let caps = Some(re.capture_locations());
+                                        let loc = r.chance(1, 2).then_some(step::Location { path: "tests/steps.rs", line: 7, column: 3 });
                                         deferred = Some(if bg {
-                                            Scenario::background_step_failed(ssrc_step, caps, None, world(), err)
+                                            Scenario::background_step_failed(ssrc_step, caps, loc, world(), err)
                                         } else {
-                                            Scenario::step_failed(ssrc_step, caps, None, world(), err)
+                                            Scenario::step_failed(ssrc_step, caps, loc, world(), err)
                                         });
                                         break;
                                     }
+                                    let loc = r.chance(1, 2).then_some(step::Location { path: "tests/steps.rs", line: 7, column: 3 });
                                     evs.push(if bg {
-                                        Scenario::background_step_passed(ssrc_step, re.capture_locations(), None)
+                                        Scenario::background_step_passed(ssrc_step, re.capture_locations(), loc)
                                     } else {
-                                        Scenario::step_passed(ssrc_step, re.capture_locations(), None)
+                                        Scenario::step_passed(ssrc_step, re.capture_locations(), loc)
                                     });
                                 }
                             }
